@@ -104,7 +104,7 @@ def plan(seed, subbatch):
             if op["op"] != "append" or not op.get("candles"):
                 continue
             # the same candles as dicts or lists; and now and then a whole chunk inside ONE second (legal duplicates)
-            op["enc"] = form.choice(("candles", "candles", "candles", "dicts", "lists"))
+            op["enc"] = form.choice(("candles", "candles", "candles", "dicts", "lists", "lists_mixed"))
             if len(op["candles"]) >= 2 and form.random() < 0.06:
                 t0 = op["candles"][0][0]
                 op["candles"] = [[t0] + list(r[1:]) for r in op["candles"]]
